@@ -224,8 +224,8 @@ Proof.
     + exists []. rewrite app_nil_r; auto.
     + exists []. rewrite app_nil_r. split; auto. intros ? [].
   - cbn [pump].
-    pose proof (do_reading_spec cf now (fuel_for sock) Hpos c sock sfds led [] 0 Hok Ht Hb) as R.
-    destruct (do_reading (fuel_for sock) cf now c sock sfds led [] 0) as [[[c1 q] led1] rs].
+    pose proof (do_reading_spec cf now (S fuel) Hpos c sock sfds led [] 0 Hok Ht Hb) as R.
+    destruct (do_reading (S fuel) cf now c sock sfds led [] 0) as [[[c1 q] led1] rs].
     destruct R as (S1 & O1 & T1 & B1 & (L1 & E1 & X1 & C1) & Bal1 & Rv1 & (Y1 & Cl1) & Dv1).
     simpl in E1. subst q.
     pose proof (dispatch_all_spec cf cs (c_id c) (sender_gone rs) L1 led1) as Dp.
